@@ -202,12 +202,14 @@ std::string run_session(const std::string& line, int line_no) {
                 std::size_t w = o.named ? S.exp->rotate_output(name, a[1] == "1") : S.exp->rotate_output(fd, a[1] == "1");
                 r = std::to_string(w);
                 }
-            } else if (op == "WB") {
+            } else if (op == "WB" || op == "WBR") {
                 // directly built block: WB:<parameters index>:<item letters>
+                // WBR:<parameters index>:<letters>:<letters>  the SAME block object written, cleared, refilled and written again
                 auto a = vh::split(arg, ':');
                 CDNS::index_t k = static_cast<CDNS::index_t>(rec::U(a[0]));
                 CDNS::CdnsBlock blk(S.exp->m_file_preamble.get_block_parameters(k), k);
-                for (char c : a[1]) {
+                auto fill = [&](CDNS::CdnsBlock& blk, const std::string& letters) {
+                for (char c : letters) {
                     CDNS::QueryResponse q;
                     CDNS::MalformedMessage m;
                     switch (c) {
@@ -235,7 +237,15 @@ std::string run_session(const std::string& line, int line_no) {
                         default: break;
                     }
                 }
-                r = std::to_string(S.exp->write_block(blk));
+                };
+                fill(blk, a[1]);
+                std::size_t w = S.exp->write_block(blk);
+                if (op == "WBR") {
+                    blk.clear();
+                    fill(blk, a.size() > 2 ? a[2] : std::string());
+                    w += S.exp->write_block(blk);
+                }
+                r = std::to_string(w);
             } else if (op == "AB") {
                 r = "i" + std::to_string(S.exp->add_block_parameters(S.bps.at(rec::U(arg))));
             } else if (op == "EH") {
